@@ -47,7 +47,7 @@ func Profile() *world.Profile {
 	}
 	p.Shapes = make([]int, 24)
 	for i, w := range map[int]int{world.ShCtx: 8, world.ShHTTP: 1, world.ShCtxTok: 2, world.ShCtxReqTok: 1, world.ShCtxStr: 2, world.ShCtxBytes: 1,
-		world.ShCtxErr: 1, world.ShCtxIntStr: 2, world.ShCtxIntErr: 1, world.ShCtxStrErr: 1, world.ShTeapot: 1, world.ShLogger: 1, world.ShRWReqTok: 1, world.ShCtxSvc: 0, world.ShInjector: 1, world.ShUserFast: 1, world.ShCtxPtrStr: 1} {
+		world.ShCtxErr: 1, world.ShCtxIntStr: 2, world.ShCtxIntErr: 1, world.ShCtxStrErr: 1, world.ShTeapot: 1, world.ShLogger: 1, world.ShRWReqTok: 1, world.ShCtxSvc: 0, world.ShInjector: 1, world.ShUserFast: 1, world.ShCtxPtrStr: 1, world.ShCtxNamedStr: 1} {
 		p.Shapes[i] = w
 	}
 	p.Ops = make([]int, world.NumOps)
@@ -190,7 +190,7 @@ func (Engine) Run(t *tape.Tape, o eng.Opts) *eng.Result {
 					tok := true
 					if e.A >= 0 {
 						k = world.PanicKindNames[e.A]
-						tok = e.A == world.PvString || e.A == world.PvError || e.A == world.PvStruct || e.A == world.PvWrapped || e.A == world.PvErrSlice || e.A == world.PvMap || e.A == world.PvEPIPE || e.A == world.PvConnReset || e.A == world.PvNotExist || e.A == world.PvFormatter || e.A == world.PvPublic || e.A == world.PvLineMapped || e.A == world.PvUnicode
+						tok = e.A == world.PvString || e.A == world.PvError || e.A == world.PvStruct || e.A == world.PvWrapped || e.A == world.PvErrSlice || e.A == world.PvMap || e.A == world.PvEPIPE || e.A == world.PvConnReset || e.A == world.PvNotExist || e.A == world.PvFormatter || e.A == world.PvPublic || e.A == world.PvLineMapped || e.A == world.PvUnicode || e.A == world.PvUnwrapPanics || e.A == world.PvIsPanics || e.A == world.PvInlinedHelper
 					}
 					at := idxOf(int(e.H))
 					if e.A < 0 || at < 0 {
